@@ -37,7 +37,7 @@ P_LK = ['%l', '%p ', '%k']
 P_WD = ['%u ', '%H', ':', '%M']
 P_EP = ['%s', ' ', '%S']
 P_WN = ['%A ', '%H']
-QUERIES = [tsf_ctor(6, 'quick'), tsf_ctor(8, 'thorough', timeout=1700), tsf_fmt(1, 20, 'unregistered', kind=3), sft('hms_gmt', P_HMS, 'quick', ncalls=2, unwind=12), pop('populate_hms_gmt', P_HMS, 'quick'),
+QUERIES = [tsf_ctor(6, 'quick'), tsf_ctor(8, 'quick'), tsf_fmt(1, 20, 'unregistered', kind=3), sft('hms_gmt', P_HMS, 'quick', ncalls=2, unwind=12), pop('populate_hms_gmt', P_HMS, 'quick'),
            sft('i_p_gmt', P_12, 'quick', ncalls=2, unwind=12), pop('populate_i_p_local', P_12, 'quick', local=True),
            sft('hms_localany', P_HMS, 'quick', ncalls=2, unwind=12, local=True, tzany=True, timeout=900),
            sft('hm_local_dst', ['%H', ':', '%M'], 'quick', ncalls=2, unwind=12, local=True, dst=True, window=14400, timeout=900), sft('h_gmt_n3', ['%H'], 'thorough', ncalls=3, unwind=12, timeout=1700), sft('wdname_h_gmt_n3', P_WN, 'quick', ncalls=3, unwind=14, timeout=1200, window=93600), pop('populate_wdname_gmt', P_WN, 'quick'),
